@@ -267,7 +267,11 @@ func cmdCheck(args []string) int {
 					r.R = SolveResult{Answer: "unsat", Solver: "trivial"}
 					continue
 				}
-				r.R = solve(r.O, tmp, timeout, seed, true, nil)
+				to := timeout
+				if r.O.ExpectSat && r.O.Finding == "" {
+					to = 3 // vacuity probes: only a quick `unsat` matters
+				}
+				r.R = solve(r.O, tmp, to, seed, true, nil)
 				if *tier == "thorough" && r.R.Answer == "unsat" && !r.O.ExpectSat {
 					// second opinion from a different solver
 					var others []string
@@ -358,7 +362,7 @@ func cmdCheck(args []string) int {
 		}
 		if r.R.Answer != "unsat" && r.R.Answer != "sat" && expected[o.Name] {
 			// an obligation of the committed baseline did not discharge: retry with a long timeout on all solvers
-			r2 := solve(o, tmp, 90, seed+17, true, nil)
+			r2 := solve(o, tmp, 45, seed+17, true, nil)
 			if os.Getenv("GOVC_DEBUG") != "" {
 				fmt.Printf("DEBUG retry %s answer=%s solver=%s %.2fs %v\n", o.Name, r2.Answer, r2.Solver, r2.Seconds, r2.ByProc)
 			}
